@@ -16,6 +16,15 @@ Proof.
   rewrite IH by lia. lia.
 Qed.
 
+Lemma map_zseq_nth {A} (f : Z -> A) n : forall k i d, (i < n)%nat ->
+  nth i (map f (zseq k n)) d = f (k + Z.of_nat i).
+Proof.
+  induction n as [|n IH]; intros k i d H; [lia|].
+  destruct i as [|i]; cbn [zseq map nth].
+  - f_equal; lia.
+  - rewrite IH by lia. f_equal; lia.
+Qed.
+
 Lemma zseq_In n : forall k x, In x (zseq k n) <-> k <= x < k + Z.of_nat n.
 Proof.
   induction n as [|n IH]; intros k x; cbn [zseq In].
@@ -179,14 +188,13 @@ Lemma static_facts :
        data_codewords_for_block s b = (iso_data e - b + iso_blocks e - 1) / iso_blocks e
        /\ zlength (stride_cnt (Z.to_nat b) Bn data) = data_codewords_for_block s b.
 Proof.
-  unfold ecc_static_ok in Hstatic.
-  repeat (apply andb_prop in Hstatic; destruct Hstatic as [Hstatic ?]).
+  pose proof Hstatic as Hs. unfold ecc_static_ok in Hs.
+  apply andb_prop in Hs. destruct Hs as [Hs Hf].
+  rewrite forallb_forall in Hf.
   repeat split; try lia.
-  - rewrite forallb_forall in H. specialize (H b).
-    rewrite zseq_In in H. apply andb_prop in H; [|lia]. lia.
-  - rewrite forallb_forall in H. specialize (H b).
-    rewrite zseq_In in H. apply andb_prop in H; [|lia].
-    destruct H as [_ H]. apply Z.eqb_eq in H. rewrite <- H.
+  - specialize (Hf b). rewrite zseq_In in Hf. apply andb_prop in Hf; [|lia]. lia.
+  - specialize (Hf b). rewrite zseq_In in Hf. apply andb_prop in Hf; [|lia].
+    destruct Hf as [_ Hf]. apply Z.eqb_eq in Hf. rewrite <- Hf.
     unfold zlength. f_equal. apply stride_length_shape.
     rewrite repeat_length. unfold zlength in Hlen. lia.
 Qed.
@@ -256,16 +264,14 @@ Proof.
   destruct (Hblk b Hb) as [Hnd Hcnt].
   assert (Hblock : rs_block e (data ++ interleave (Z.to_nat epb) eccs) b =
                    stride_cnt (Z.to_nat b) Bn data ++ nth (Z.to_nat b) eccs []).
-  { unfold rs_block. rewrite <- HBe, <- Hnd, <- Hepb. f_equal.
+  { unfold rs_block. rewrite <- Hnd, <- Hepb, <- HBe. f_equal.
     - (* data part *)
       apply (nth_ext _ _ 0 0).
       + rewrite map_length. unfold zrange0. rewrite zrange_s_zseq, zseq_length.
         unfold zlength in Hcnt. lia.
       + intros i Hi. rewrite map_length in Hi. unfold zrange0 in *.
         rewrite zrange_s_zseq, zseq_length in Hi. rewrite zrange_s_zseq.
-        rewrite (nth_indep _ 0 ((fun j => nth (Z.to_nat (b + j * B)) (data ++ interleave (Z.to_nat epb) eccs) 0) 0))
-          by (rewrite map_length, zseq_length; exact Hi).
-        rewrite map_nth. rewrite zseq_nth by exact Hi.
+        rewrite map_zseq_nth by exact Hi.
         assert (Hi' : (i < length (stride_cnt (Z.to_nat b) Bn data))%nat)
           by (unfold zlength in Hcnt; lia).
         pose proof (stride_nth_lt Bn ltac:(lia) data _ _ Hi') as Hlt.
@@ -279,9 +285,7 @@ Proof.
         unfold zlength in HlE. lia.
       + intros i Hi. rewrite map_length in Hi. unfold zrange0 in *.
         rewrite zrange_s_zseq, zseq_length in Hi. rewrite zrange_s_zseq.
-        rewrite (nth_indep _ 0 ((fun j => nth (Z.to_nat (iso_data e + b + j * B)) (data ++ interleave (Z.to_nat epb) eccs) 0) 0))
-          by (rewrite map_length, zseq_length; exact Hi).
-        rewrite map_nth. rewrite zseq_nth by exact Hi.
+        rewrite map_zseq_nth by exact Hi.
         replace (Z.to_nat (iso_data e + b + (0 + Z.of_nat i) * B))
           with (length data + (Z.to_nat b + i * length eccs))%nat
           by (rewrite HlenE; unfold zlength in Hlen; lia).
